@@ -11,9 +11,10 @@ RULE = ("actions of the C02/C03 grammars x type-correct calls (all of them up to
         "uses a constant, or the action has a constant argument or a parameter whose type is a strict subtype of the "
         "predicate's parameter type")
 DECISIVE = ["compared:preconditions", "compared:effects", "compared:typed"]
-DECISIVE_EACH = ["compared:preconditions", "compared:effects", "compared:typed"]
+DECISIVE_EACH = ["compared:stored-form", "compared:preconditions", "compared:effects", "compared:typed"]
 ASSUMPTIONS = ["literals that mention a quantified variable are outside the statement and ignored",
-               "numeric expressions are observed through to_pddl(), re-read independently"]
+               "numeric expressions are observed through to_pddl(), re-read independently, and a second time from the tree itself "
+               "with every fluent leaf's argument list taken from PDDLFunction.state_representation (the form states use)"]
 SHARDS = {"quick": 16, "thorough": 16}
 
 
@@ -40,6 +41,30 @@ def collapse_in(e, funcs):
             return (e[0],) + tuple(model.collapse_args(list(e[1:])))
         return tuple(collapse_in(x, funcs) for x in e)
     return e
+
+
+def repeats_first_in(e, funcs):
+    if isinstance(e, tuple):
+        if e and e[0] in funcs:
+            return (e[0],) + tuple(model.repeats_first(list(e[1:])))
+        return tuple(repeats_first_in(x, funcs) for x in e)
+    return e
+
+
+def stored_form(tree):
+    """a grounded numeric expression read straight from the library's tree: operators from the nodes, every fluent leaf
+    with the argument list the library itself uses for it in states (PDDLFunction.state_representation, which expands
+    `repeating_variables`) - a second channel next to to_pddl(), which prints the name-keyed signature only"""
+    def go(node):
+        kids = list(getattr(node, "children", ()) or ())
+        v = node.value
+        if not kids:
+            if hasattr(v, "signature"):
+                t = sx.read(v.state_representation)
+                return [str(x) for x in t[1]]
+            return repr(float(v))
+        return [str(v)] + [go(k) for k in kids]
+    return model.canon_expr(go(tree.root))
 
 
 def model_groups(wm, act, b):
@@ -115,7 +140,7 @@ def run_domain(ctx, rng, w, acts, thorough):
                 nontrivial = len(set(call)) < len(call) or any(x in w.constants for x in call)
                 # ---- preconditions ---------------------------------------------------------
                 exp_lits, exp_nums, _ = model.ground_literals(wm, act.pre, b)
-                got_lits, got_nums = set(), set()
+                got_lits, got_nums, got_stored = set(), set(), set()
                 typed_bad = None
                 for _, operand in pre_items:
                     tn = type(operand).__name__
@@ -129,6 +154,10 @@ def run_domain(ctx, rng, w, acts, thorough):
                             e = ("unprintable",)
                         if not mentions_var(e):
                             got_nums.add(e)
+                            try:
+                                got_stored.add(stored_form(operand))
+                            except BaseException as ex:
+                                got_stored.add(("unreadable", lib.exc_name(ex)))
                 ctx.count("compared:preconditions")
                 if got_lits != set(exp_lits):
                     ctx.violation("grounding:precondition-literals-differ-from-substitution",
@@ -142,19 +171,35 @@ def run_domain(ctx, rng, w, acts, thorough):
                         ctx.violation("grounding:numeric-conditions-differ-from-substitution",
                                       dict(wit, expected=sorted(map(str, exp_nums)), observed=sorted(map(str, got_nums))))
                         break
+                ctx.count("compared:stored-form")
+                if got_stored != set(exp_nums):
+                    emu = {repeats_first_in(e, wm.dom.functions) for e in exp_nums}
+                    if got_stored == emu and emu != set(exp_nums):
+                        ctx.known_finding("KF-REPEATED-ARGS", dict(wit, expected=sorted(map(str, exp_nums)), observed=sorted(map(str, got_stored)),
+                                                                   channel="state_representation of the leaves"))
+                    else:
+                        ctx.violation("grounding:numeric-conditions-differ-from-substitution[argument-lists-as-stored]",
+                                      dict(wit, expected=sorted(map(str, exp_nums)), observed=sorted(map(str, got_stored))))
+                        break
                 # ---- effects ---------------------------------------------------------------------
                 exp_groups = model_groups(wm, act, b)
+                stored_groups = []
                 got_groups = []
                 for g in groups:
                     adds = frozenset(obs_literal(x)[1] for x in g.grounded_discrete_effects if x.is_positive)
                     dels = frozenset(obs_literal(x)[1] for x in g.grounded_discrete_effects if not x.is_positive)
-                    nums = set()
+                    nums, nums_st = set(), set()
                     for t in g.grounded_numeric_effects:
                         try:
                             nums.add(model.canon_expr(sx.read(t.to_pddl())))
                         except BaseException:
                             nums.add(("unprintable",))
+                        try:
+                            nums_st.add(stored_form(t))
+                        except BaseException as ex:
+                            nums_st.add(("unreadable", lib.exc_name(ex)))
                     got_groups.append((adds, dels, frozenset(nums)))
+                    stored_groups.append((adds, dels, frozenset(nums_st)))
                     for x in g.grounded_discrete_effects:
                         typed_bad = typed_bad or check_typed(wm, act, b, x, w)
                 ctx.count("compared:effects")
@@ -165,6 +210,15 @@ def run_domain(ctx, rng, w, acts, thorough):
                         ctx.known_finding("KF-REPEATED-ARGS", dict(wit, expected=key(exp_groups), observed=key(got_groups)))
                     else:
                         ctx.violation("grounding:effect-groups-differ-from-substitution", dict(wit, expected=key(exp_groups), observed=key(got_groups)))
+                        break
+                if key(stored_groups) != key(exp_groups):
+                    emu_groups = [(a_, d_, frozenset(repeats_first_in(e, wm.dom.functions) for e in n_)) for a_, d_, n_ in exp_groups]
+                    if key(stored_groups) == key(emu_groups):
+                        ctx.known_finding("KF-REPEATED-ARGS", dict(wit, expected=key(exp_groups), observed=key(stored_groups),
+                                                                   channel="state_representation of the leaves"))
+                    else:
+                        ctx.violation("grounding:effect-groups-differ-from-substitution[argument-lists-as-stored]",
+                                      dict(wit, expected=key(exp_groups), observed=key(stored_groups)))
                         break
                 # ---- typed forms ---------------------------------------------------------------
                 ctx.count("compared:typed")
